@@ -11,7 +11,7 @@ PROPERTY = 'C02'
 LEVEL = 'other'
 TARGETS = [
     ('levenshtein_distance', 'levenshtein.levenshtein_distance'),
-    ('nodes', 'graphtage.LeafNode.edits'), ('nodes', 'graphtage.NullNode.edits'), ('nodes', 'graphtage.ListNode.edits'),
+    ('nodes', 'graphtage.LeafNode.edits'), ('nodes', 'graphtage.StringNode.edits'), ('nodes', 'graphtage.NullNode.edits'), ('nodes', 'graphtage.ListNode.edits'),
     ('nodes', 'graphtage.KeyValuePairEdit.__init__'), ('core', 'edits.Replace.__init__'), ('core', 'edits.Match.__init__'),
     ('bounded', 'tree.Edit.has_non_zero_cost'),
 ]
